@@ -4518,6 +4518,8 @@ def bundle_readpath(P, R, L):
     R.once(round12.sep1_shortened_key_is_guarded, P, R, L)
     R.clause("PAIR-8 (skip key)", "a backward-to-forward turn of the client iterator keeps the key that is being shown as the key to skip (it is not replaced by a key read from the inner iterator)")
     R.once(round12.pair8d_reversal_keeps_shown_key, P, R, L)
+    R.clause("PAIR-8 (skip flag)", "find_next_client_entry is started in skipping mode by next() only; the positioning moves (seek, seek_to_first) start it with skipping off (or after clearing the saved key): a leftover saved key never hides visible entries")
+    R.once(round12.pair8e_skip_flag_matches_the_move, P, R, L)
     R.clause("PAIR-18", "a reader that makes its capture of the immutable memtable depend on the has_immutable_memtable flag needs a flag that is lowered only after the slot was emptied (conjunction of two sites; either alone is accepted)")
     R.once(round12.pair18_flush_flag_mirrors_slot, P, R, L)
     R.clause("OWN-16", "the client iterator becomes valid only inside its two collapse loops (which apply the sequence filter and skip tombstones / shadowed versions)")
@@ -6595,19 +6597,28 @@ def grd34_batch_loop_bounded_by_count(P, R, L, rule="GRD-34"):
     nexts = [c for c in b.calls() if not b.is_cleanup(c.bb) and (c.name or "").endswith("::next") and c.args and over_range(c.args[0])]
     ok = bool(rd) and bool(ranges) and bool(nexts) and all(in_cycle(b, c.bb) for c in rd) and \
         all(b.must_pass(c.bb, through_nodes=[x.bb for x in nexts]) for c in rd)
+    leave = []
+    if ok:
+        from ..rules import option_tests
+        for x in nexts:
+            if not x.dest["p"]:
+                for t in option_tests(b, x.dest["l"]):
+                    leave += t.err_edges()
     if not ok and rd and all(in_cycle(b, c.bb) for c in rd):
         # the counting form: `while decoded < count { read_element; decoded += 1 }` - read_element lies behind the true edge of
         # `counter < count` (count = the header's varint), and the counter starts at 0 and is only ever incremented by one
         is_count = lambda os_: any(o.kind == "call" and "read_varint" in (o.name or "") for o in os_)
-        stay, counters = [], set()
+        stay, gone, counters = [], [], set()
         for c in comparisons(b):
             for (cop, kop, op_) in ((c.lhs, c.rhs, c.op), (c.rhs, c.lhs, {"lt": "gt", "gt": "lt", "le": "ge", "ge": "le"}.get(c.op, c.op))):
                 if is_count(origins(b, kop)) and not is_count(origins(b, cop)) and cop.get("k") in ("copy", "move"):
                     if op_ == "lt":
                         stay += [(c.bb, t) for t in c.true_t]
+                        gone += [(c.bb, t) for t in c.false_t]
                         counters |= roots(b, cop)
                     elif op_ == "ge":
                         stay += [(c.bb, t) for t in c.false_t]
+                        gone += [(c.bb, t) for t in c.true_t]
                         counters |= roots(b, cop)
         good_counter = False
         for l in counters:
@@ -6623,9 +6634,53 @@ def grd34_batch_loop_bounded_by_count(P, R, L, rule="GRD-34"):
             if inits and all(str(d[3]["rv"]["ops"][0].get("val")) == "0" for d in inits) and inc_ok:
                 good_counter = True
         ok = bool(stay) and good_counter and all(b.must_pass(c.bb, through_edges=stay) for c in rd)
+        if ok:
+            leave = gone
+    if not ok and rd and all(in_cycle(b, c.bb) for c in rd):
+        # the count-down form: `let mut left = count; while left > 0 { read_element; left -= 1 }` - the counter starts at the
+        # header's varint, is only ever decremented by one, and read_element lies behind the edge on which it is not yet zero
+        is_count = lambda os_: any(o.kind == "call" and "read_varint" in (o.name or "") for o in os_)
+        is_zero = lambda op: op.get("k") == "const" and str(op.get("val")) == "0"
+        stay, gone, counters = [], [], set()
+        for c in comparisons(b):
+            for (cop, kop, op_) in ((c.lhs, c.rhs, c.op), (c.rhs, c.lhs, {"lt": "gt", "gt": "lt", "le": "ge", "ge": "le"}.get(c.op, c.op))):
+                if is_zero(kop) and cop.get("k") in ("copy", "move"):
+                    if op_ in ("gt", "ne"):
+                        stay += [(c.bb, t) for t in c.true_t]
+                        gone += [(c.bb, t) for t in c.false_t]
+                        counters |= roots(b, cop)
+                    elif op_ in ("le", "eq"):
+                        stay += [(c.bb, t) for t in c.false_t]
+                        gone += [(c.bb, t) for t in c.true_t]
+                        counters |= roots(b, cop)
+        good_counter = False
+        for l in counters:
+            defs = [d for d in b.defs().get(l, []) if not b.is_cleanup(d[1])]
+            steps = [d for d in defs if d[0] == "stmt" and d[3]["rv"].get("ops") and
+                     any(o.kind == "binop" for o in origins(b, d[3]["rv"]["ops"][0]))]
+            inits = [d for d in defs if d not in steps]
+            dec_ok = bool(steps) and all(
+                any(o.kind == "binop" and o.name.startswith("Sub") and o.extra is not None and
+                    o.extra[1]["rv"]["ops"][1].get("k") == "const" and str(o.extra[1]["rv"]["ops"][1].get("val")) == "1" and
+                    l in roots(b, o.extra[1]["rv"]["ops"][0])
+                    for o in origins(b, d[3]["rv"]["ops"][0]))
+                for d in steps)
+            init_ok = bool(inits) and all(d[0] == "stmt" and d[3]["rv"]["k"] == "use" and is_count(origins(b, d[3]["rv"]["ops"][0])) for d in inits)
+            if init_ok and dec_ok:
+                good_counter = True
+        ok = bool(stay) and good_counter and all(b.must_pass(c.bb, through_edges=stay) for c in rd)
+        if ok:
+            leave = gone
     R.check(rule, fn + "|element-loop-driven-by-the-stored-count", ok, where(b),
             "read_element runs inside the loop over 0..count (count = the varint of the batch header)",
             "read_element sites %d, ranges ending in the count %d, next() on a range %d" % (len(rd), len(ranges), len(nexts)))
+    # ... and the decoder hands out Ok(batch) only after the loop ended BECAUSE the count was reached: an extra way out of the loop
+    # (`if buf.is_empty() { break }`) is the same silent truncation
+    oks = [bb for bb in range(b.n) if not b.is_cleanup(bb) for st in b.blocks[bb]["stmts"]
+           if st["k"] == "assign" and st["pl"]["l"] == 0 and not st["pl"]["p"] and st["rv"]["k"] == "aggregate" and st["rv"].get("variant") == "Ok"]
+    R.check(rule, fn + "|loop-left-only-at-the-stored-count", ok and bool(leave) and bool(oks) and all(b.must_pass(bb, through_edges=leave) for bb in oks),
+            where(b), "every path to Ok(batch) passes the edge on which the element loop has decoded `count` elements",
+            "Ok returns %d, count-reached edges %d" % (len(oks), len(leave)))
 
 
 # ------------------------------------------------------------------------------------------- GRD-35 a picked compaction always has an input
